@@ -4,7 +4,7 @@ use crate::anyval::{build_multiset, int_from, multiset_values};
 use crate::engine::{CaseResult, Fail, Prop, Report, Tier};
 use crate::gen::BitsSpec;
 use crate::model::{Bits, Model, SetModel};
-use crate::props::c01::{rl_from, sparse_from};
+use crate::props::c01::sparse_from;
 use crate::props::c04::VecModel;
 use crate::util::{frac, hash_of};
 use proptest::prelude::*;
